@@ -383,6 +383,10 @@ def fault_triples(tier):
                             (cert, n, stage, ('bytes', b'SSH-9.9-future\r\n'))]
                     continue
                 out += [(cert, n, stage, ('wrongtype', t)) for t in (1, 3, 21, 80, 255)]
+                # correctly framed, payload cut short: every strict prefix of the message
+                plen = L - 5 - 4                                      # (upper bound of the payload length: the framed size minus header and minimal padding)
+                for k in range(1, plen, (1 if dense else 11)):
+                    out.append((cert, n, stage, ('ptrunc', k)))
                 # a packet with an empty payload; one whose padding length exceeds the packet length; an empty packet body
                 out += [(cert, n, stage, ('bytes', b'\x00\x00\x00\x0c\x0b' + b'\x00' * 11)), (cert, n, stage, ('bytes', struct.pack('>IB', 4, 200) + b'\x00' * 3)),
                         (cert, n, stage, ('bytes', struct.pack('>IB', 0, 0) + b'\x00' * 3)), (cert, n, stage, ('bytes', struct.pack('>IB', 0xffffffff, 7) + b'\x00' * 11))]
@@ -460,6 +464,10 @@ def one(tr):
         # the initial handshake was well-formed: a complete algorithm report, whatever the probes met
         if report or st not in (0, 2, 3):
             fail({'status': st, 'missing': report[:4], 'last line': tail}, 'complete algorithm report and status 0/2/3 (misbehaviour confined to a probe connection)', 'probe-fault-loses-report')
+    elif fault[0] == 'ptrunc' and stage == 'kexinit' and fault[1] < len(F.unframe(F.packet(base_server(cert=cert).kex))):
+        # a KEXINIT whose payload is a strict prefix of a valid one is malformed (the reserved word, at least, is missing)
+        if any_alg or st != 1:
+            fail({'status': st, 'algorithm report': any_alg}, 'no algorithm report and status 1 for a key-exchange-init message cut short', 'malformed-kexinit-reported')
     else:
         if any_alg:
             # (which names a mutated KEXINIT advertises is the peer's business: C01; here only report XOR status 1)
@@ -516,6 +524,17 @@ def ssh1_case(arg):
     if not whole and kind in ('truncate', 'rawcut', 'garbage') and (any_alg or st != 1):
         return [{'input': dict(inp, **{'class': 'ssh1-malformed-reported'}), 'got': {'status': st, 'algorithm report': any_alg}, 'want': 'no algorithm report and status 1 for a malformed handshake'}]
     return []
+def fallback_case(second):
+    peer = F.Peer('healthy', banner=b'SSH-1.5-OpenSSH_1.2.3\r\n')
+    peer.script = lambda n: [peer.banner, b'Protocol major versions differ.\n'] if (second == 'always-differs' or n == 0) else [peer.banner] if second == 'close' else [peer.banner, b'\x00' * 40]
+    net = F.FakeNet({'s.test': peer})
+    net.recv_budget = 20000
+    st, out = F.run_main(['-n', '--skip-rate-test', 's.test'], net)
+    if st not in (0, 1, 2, 3) or peer.connections > 2:
+        return [{'input': {'class': 'hang-or-crash', 'stage': 'ssh1-fallback', 'fault': ['protocol major versions differ', second]}, 'got': {'status': st, 'connections': peer.connections},
+                 'want': 'one retry with the SSH-1 identification, then a documented status'}]
+    return []
+res += [fallback_case(x) for x in ('close', 'garbage', 'always-differs')]
 ssh1_work = [('truncate', c) for c in range(0, 428)] + [('badcrc', 0)] + [('wrongtype', t) for t in (0, 1, 3, 20, 255)] + [('rawcut', c) for c in range(0, 440, 7)] + [('garbage', n) for n in (1, 7, 8, 16, 64)]
 res += run_pool(ssh1_case, ssh1_work)
 work = list(work) + ssh1_work
